@@ -106,6 +106,18 @@ def b_len(ex, node, st, sink):
 
 
 def b_isinstance(ex, node, st, sink):
+    c = node.args[1]
+    if isinstance(c, ast.Attribute) and c.attr == "__class__":
+        # isinstance(x, y.__class__): x's class is y's class (subclasses among the declared records are not distinguished here: recorded)
+        ex.assumptions.add("isinstance(x, y.__class__) read as `same class` (the declared record classes involved have no subclasses)")
+        out = []
+        for s, (x, y) in ex.ev_list([node.args[0], c.value], st, sink):
+            if isinstance(x.t, ty.Opt):
+                x = ty.opt_val(x)
+            if isinstance(y.t, ty.Opt):
+                y = ty.opt_val(y)
+            out.append((s, SV(ty.Bool, ty.typeof(x.e) == ty.typeof(y.e))))
+        return out
     return [(s, SV(ty.Bool, ex.spec.isinstance_(v, node.args[1]))) for s, v in ex.ev(node.args[0], st, sink)]
 
 
